@@ -263,6 +263,13 @@ def reorderGlyphs(font: ttLib.TTFont, new_glyph_order: List[str]):
     if not_loaded:
         raise ValueError(f"Everything should be loaded, following aren't: {not_loaded}")
 
+    # CFF2 has no charset of its own: its CharStrings get keyed by the font's
+    # glyph order at the time they are first accessed, so make sure they are
+    # loaded before the glyph order changes.
+    for tag in ["CFF ", "CFF2"]:
+        if tag in font:
+            font[tag].cff.topDictIndex[0].CharStrings
+
     font.setGlyphOrder(new_glyph_order)
 
     coverage_containers = {"GDEF", "GPOS", "GSUB", "MATH"}
